@@ -187,8 +187,8 @@ Qed.
 
 Definition used_op (o : op) : Prop :=
   match o with
-  | OLit _ _ | ONumbers _ | OAppend _ _ _ _ | OReverse _ _ | OConcat _ _ | OMap _ _ | OAccept _ _
-  | OTop _ _ | OSkip _ _ | OForce _ _ | OGuard _ _ => True
+  | OLit _ _ | ONumbers _ | OAppend _ _ _ _ | OReverse _ _ | OOrder _ _ | OConcat _ _ | OMap _ _ | OAccept _ _
+  | OTop _ _ | OSkip _ _ | OForce _ _ | OGuard _ _ | OStage _ _ _ => True
   | _ => False
   end.
 
@@ -206,12 +206,15 @@ Proof.
     eapply fzpres_trans; [apply fzpres_eval_obj|]. apply fzpres_append_core; auto.
   - unfold do_copy_with. destruct (get_obj (eval_obj h a c1) a) as [ob|] eqn:Hg; [|apply fzpres_refl].
     eapply fzpres_trans; [apply fzpres_eval_obj|apply fzpres_add_fresh].
+  - unfold do_copy_with. destruct (get_obj (eval_obj h a c1) a) as [ob|] eqn:Hg; [|apply fzpres_refl].
+    eapply fzpres_trans; [apply fzpres_eval_obj|apply fzpres_add_fresh].
   - apply fzpres_if_lazy.
   - apply fzpres_if_lazy.
   - apply fzpres_if_lazy.
   - apply fzpres_if_lazy.
   - apply fzpres_if_lazy.
   - apply fzpres_eval_obj.
+  - apply fzpres_if_lazy.
   - apply fzpres_if_lazy.
 Qed.
 
@@ -481,6 +484,31 @@ Proof.
     + intros a h1 Hlt. cbn [pstep]. rewrite have_true by exact Hlt. rewrite abs_get. reflexivity.
     + cbn [sp_l]. rewrite (ev_s_spec en se v Hz Ha). reflexivity.
     + exact K.
+  - (* LStage *)
+    intros st a IHa b IHb R Q en se k h E K. cbn [sc_l]. cbn [sp_l] in K. destruct (one_list_stage st) eqn:Eo.
+    + apply (IHa R Q en se _ h E). intros h1 r1 G1 R1.
+      destruct r1 as [x|], (sp_l se a) as [xs|] eqn:Ea; cbn in R1; try contradiction; [|apply K; [exact G1|exact I]].
+      destruct R1 as [Hx Hcx].
+      apply (yields_alloc n0 a0 R Q _ k h1 (stage_sem st xs xs)); [eapply gstep_inv; eauto|exact I| |].
+      * cbn [pstep]. rewrite !have_true by assumption. cbn [andb]. rewrite !abs_get, Hcx. reflexivity.
+      * intros h2 r2 G2 R2. apply K; [gchain|exact R2].
+    + apply (IHa R Q en se _ h E). intros h1 r1 G1 R1.
+      destruct r1 as [x|], (sp_l se a) as [xs|] eqn:Ea; cbn in R1; try contradiction; [|apply K; [exact G1|exact I]].
+      apply (IHb R Q en se _ h1 (env_ok_mono _ _ _ _ _ _ G1 E)).
+      intros h2 r2 G2 R2.
+      destruct r2 as [y|], (sp_l se b) as [ys|] eqn:Eb; cbn in R2; try contradiction; [|apply K; [gchain|exact I]].
+      pose proof (hrel_mono _ _ _ _ (Some x) (Some xs) G2 R1) as [Hx Hcx]. destruct R2 as [Hy Hcy].
+      apply (yields_alloc n0 a0 R Q _ k h2 (stage_sem st xs ys)); [eapply gstep_inv; eauto|exact I| |].
+      * cbn [pstep]. rewrite !have_true by assumption. cbn [andb]. rewrite !abs_get, Hcx, Hcy. reflexivity.
+      * intros h3 r3 G3 R3. apply K; [gchain|exact R3].
+  - (* LOrder *)
+    intros l IHl R Q en se k h E K. cbn [sc_l]. apply (IHl R Q en se _ h E).
+    intros h1 r1 G1 R1. cbn [sp_l] in K.
+    destruct r1 as [a|], (sp_l se l) as [xs|] eqn:El; cbn in R1; try contradiction; [|apply K; [exact G1|exact I]].
+    destruct R1 as [Ha Hc].
+    apply (yields_alloc_eval n0 a0 R Q a _ k h1 (sort_vals xs)); [eapply gstep_inv; eauto|exact I| |].
+    + intros _. cbn [pstep]. rewrite have_true by exact Ha. rewrite abs_get, Hc. reflexivity.
+    + rewrite Hc. intros h2 r2 G2 R2. apply K; [gchain|exact R2].
   - (* ZS *)
     intros s R Q en se k h E K. cbn [sc_z]. pose proof E as (Hi & Hz & Ha & _).
     apply K; [apply gstep_refl; exact Hi|]. cbn [sp_z]. rewrite (ev_s_spec en se s Hz Ha). reflexivity.
@@ -548,6 +576,10 @@ Proof.
     destruct (x <? y)%Z.
     + apply (IHt R Q en se _ h2 E2). intros h3 r3 G3 E3. apply K; [gchain|exact E3].
     + apply (IHe R Q en se _ h2 E2). intros h3 r3 G3 E3. apply K; [gchain|exact E3].
+  - (* ZCall *)
+    intros a b x IHx R Q en se k h E K. cbn [sc_z]. pose proof E as (_ & Hz & Ha & _). apply (IHx R Q en se _ h E).
+    intros h1 r1 G1 E1. subst r1. cbn [sp_z] in K. rewrite <- (ev_s_spec en se a Hz Ha), <- (ev_s_spec en se b Hz Ha) in K.
+    destruct (sp_z se x) as [v|]; apply K; try exact G1; reflexivity.
 Qed.
 
 End Sound.
